@@ -238,7 +238,7 @@ func checkBufferBounds(f *ssa.Function, only func(buf ssa.Value) bool) (int, []b
 				if !isBytes(x.X.Type()) || (only != nil && !only(x.X)) {
 					continue
 				}
-				lenX := linAtom("len(" + bufKey(x.X) + ")")
+				lenX := lenOfBuffer(x.X)
 				if x.High != nil {
 					n++
 					ob := lin(x.High, 0).add(lenX, -1) // hi - len ≤ 0
@@ -257,8 +257,11 @@ func checkBufferBounds(f *ssa.Function, only func(buf ssa.Value) bool) (int, []b
 				if !isBytes(x.X.Type()) || (only != nil && !only(x.X)) {
 					continue
 				}
+				lenX := lenOfBuffer(x.X)
+				if len(lenX.terms) == 0 && !isDataDerived(x.Index, 0, map[ssa.Value]bool{}) {
+					continue // fixed-size local buffer indexed by a counter: not an input-controlled access
+				}
 				n++
-				lenX := linAtom("len(" + bufKey(x.X) + ")")
 				ob := lin(x.Index, 0).add(lenX, -1).add(linConst(1), 1) // i - len + 1 ≤ 0
 				if !implied(ob, in, facts) {
 					out = append(out, boundViolation{in, "index", lin(x.Index, 0).String(), bufKey(x.X)})
@@ -292,4 +295,101 @@ func lastFieldStoreBefore(fa *ssa.FieldAddr, at ssa.Instruction) ssa.Value {
 		idx = len(b.Instrs)
 	}
 	return nil
+}
+
+// lenOfBuffer: the length of a buffer as a linear form: a constant for buffers allocated in the
+// function with a constant size (make([]byte, 16), [N]byte arrays), else the atom len(buf).
+func lenOfBuffer(v ssa.Value) linForm {
+	x := stripConv(v)
+	for i := 0; i < 4; i++ {
+		switch b := x.(type) {
+		case *ssa.MakeSlice:
+			if k, ok := constInt(b.Len); ok {
+				return linConst(k)
+			}
+		case *ssa.Slice:
+			if al, ok := b.X.(*ssa.Alloc); ok && (b.Low == nil || isZeroConst(b.Low)) {
+				if p, ok := al.Type().(*types.Pointer); ok {
+					if arr, ok := p.Elem().Underlying().(*types.Array); ok {
+						if b.High == nil {
+							return linConst(arr.Len())
+						}
+						if k, ok := constInt(b.High); ok {
+							return linConst(k)
+						}
+					}
+				}
+			}
+		case *ssa.UnOp:
+			// load of a local that holds such a buffer (unique store)
+			if al, ok := b.X.(*ssa.Alloc); ok {
+				var val ssa.Value
+				n := 0
+				for _, ref := range *al.Referrers() {
+					if st, ok := ref.(*ssa.Store); ok && st.Addr == ssa.Value(al) {
+						val = st.Val
+						n++
+					}
+				}
+				if n == 1 {
+					x = stripConv(val)
+					continue
+				}
+			}
+		}
+		break
+	}
+	return linAtom("len(" + bufKey(v) + ")")
+}
+
+// isDataDerived: v depends on bytes of an input (an integer decoded by encoding/binary, an element
+// of a byte buffer, or a length of a parameter).
+func isDataDerived(v ssa.Value, depth int, seen map[ssa.Value]bool) bool {
+	if v == nil || depth > 10 || seen[v] {
+		return false
+	}
+	seen[v] = true
+	switch x := v.(type) {
+	case *ssa.Const:
+		return false
+	case *ssa.BinOp:
+		return isDataDerived(x.X, depth+1, seen) || isDataDerived(x.Y, depth+1, seen)
+	case *ssa.Convert:
+		return isDataDerived(x.X, depth+1, seen)
+	case *ssa.ChangeType:
+		return isDataDerived(x.X, depth+1, seen)
+	case *ssa.Phi:
+		for _, e := range x.Edges {
+			if isDataDerived(e, depth+1, seen) {
+				return true
+			}
+		}
+		return false
+	case *ssa.UnOp:
+		if x.Op == token.MUL {
+			if _, ok := x.X.(*ssa.IndexAddr); ok {
+				return true // element of a buffer
+			}
+			if al, ok := x.X.(*ssa.Alloc); ok {
+				for _, ref := range *al.Referrers() {
+					if st, ok := ref.(*ssa.Store); ok && st.Addr == ssa.Value(al) && isDataDerived(st.Val, depth+1, seen) {
+						return true
+					}
+				}
+				return false
+			}
+			return true // field / pointer load: unknown provenance
+		}
+		return isDataDerived(x.X, depth+1, seen)
+	case *ssa.Call:
+		if bi, ok := x.Call.Value.(*ssa.Builtin); ok && bi.Name() == "len" {
+			return true
+		}
+		return true
+	case *ssa.Extract:
+		return true
+	case *ssa.Parameter:
+		return true
+	}
+	return true
 }
